@@ -205,6 +205,34 @@ def handmade():
       out.append((f'alias-direct-{vn}-{op}', o, diffing.Diff(changes=(
           chg, diffing.SetValue((A('z'), A('x')), R('old', (A('c'),)))),
                                                             new_shared_values=())))
+  # new shared values whose callables have dotted qualified names (nested
+  # class, classmethod) and new values with left-over empty tag sets
+  for cname, c in (('nested-class', N.Outer.Inner),
+                   ('classmethod', N.MakerSub.make),
+                   ('enum-leaf', N.node)):
+    out.append((f'shared-{cname}', old(), diffing.Diff(
+        changes=(diffing.ModifyValue((A('x'),), R('new_shared_values',
+                                                  (I(0),))),
+                 diffing.SetValue((A('y'), K('n')), R('new_shared_values',
+                                                     (I(0),)))),
+        new_shared_values=(fdl.Config(c, x=N.Outer.Mode.TRAIN),))))
+  def untagged_again():
+    v = fdl.Config(N.node, y=3)
+    fdl.add_tag(v, 'x', N.TagA)       # no value for x
+    fdl.remove_tag(v, 'x', N.TagA)    # leaves an empty tag set behind
+    fdl.set_tags(v, 'y', {N.TagB})
+    fdl.clear_tags(v, 'y')
+    return v
+  out.append(('new-value-with-empty-tag-sets', old(), diffing.Diff(
+      changes=(diffing.ModifyValue((A('x'),), untagged_again()),
+               diffing.SetValue((A('y'), K('n')), [untagged_again()])),
+      new_shared_values=())))
+  out.append(('shared-value-with-empty-tag-sets', old(), diffing.Diff(
+      changes=(diffing.ModifyValue((A('x'),), R('new_shared_values',
+                                                (I(0),))),
+               diffing.SetValue((A('y'), K('n')), R('new_shared_values',
+                                                   (I(0),)))),
+      new_shared_values=(untagged_again(),))))
   # tag operations and callable update with argument deletion
   t = old()
   fdl.add_tag(t, 'x', N.TagA)
